@@ -50,7 +50,7 @@ def bounds(tier):
                 'core_iterations': [1, 2, 3], 'core_max_exec': 4000,
                 'pipe_shapes': (3, 4), 'perm_genes': 4}
     return {'core_shapes': (3, 5), 'core_bound': 3,
-            'core_iterations': [1, 2, 3], 'core_max_exec': 12000,
+            'core_iterations': [1, 2, 3], 'core_max_exec': 6000,
             'pipe_shapes': (4, 5), 'perm_genes': 5}
 
 
